@@ -26,6 +26,8 @@
 #include <sys/syscall.h>
 #include <sys/stat.h>
 #include <sys/utsname.h>
+#include <sys/resource.h>
+#include <locale.h>
 #include <alloca.h>
 #include <pthread.h>
 #include <linux/sched.h>
@@ -94,7 +96,7 @@ enum { S_FILE, S_SOCK, S_PIPE, S_PTY, S_FULL, S_FIFO };
 struct sink { char name[32]; int type; char path[512]; int fd; off_t off; };
 static struct sink *sinks; static int nsinks;      /* in shared memory: a child that drains a file sink advances the parent's offset too */
 
-static pid_t jam_helper; static char jam_sink[32]; static long jam_delay;
+static char jam_sink[32]; static long jam_delay;
 static void drain_one(struct sink *s) {                              /* emits "name":<data> */
     static unsigned char buf[1 << 21];
     opf("\"%s\":", s->name);
@@ -125,6 +127,8 @@ static void drain_all(const char *key) {
 }
 
 /* ---------------------------------------------------------------- process snapshot (C16) */
+static pid_t jam_helper;
+static int count_threads(void) { int n = 0; DIR *d = opendir("/proc/self/task"); struct dirent *e; while (d && (e = readdir(d))) if (isdigit((unsigned char) e->d_name[0])) n++; if (d) closedir(d); return n; }
 static void snapshot(const char *key) {
     char fds[8192]; size_t k = 0; fds[0] = 0;
     int nums[1024]; int nn = 0;
@@ -154,7 +158,20 @@ static void snapshot(const char *key) {
     }
     opf("\"%s\":{\"fds\":\"%s\",\"heap\":\"%ld/%ld\",\"envp\":\"%p\",\"envsum\":\"%llx\",\"cwd\":", key, fds, heapc, heapb, (void *) environ, (unsigned long long) vec_sum(environ));
     ohex((unsigned char *) cwd, strlen(cwd));
-    opf(",\"umask\":%u,\"sigmask\":\"%llx\",\"sigacts\":\"%llx\"}", (unsigned) um, (unsigned long long) mh, (unsigned long long) ah);
+    opf(",\"umask\":%u,\"sigmask\":\"%llx\",\"sigacts\":\"%llx\"", (unsigned) um, (unsigned long long) mh, (unsigned long long) ah);
+    /* more per-process settings a library must hand back as it found them */
+    struct itimerval it; char timers[160]; size_t tk = 0; timers[0] = 0;
+    for (int w = 0; w < 3; w++) { memset(&it, 0, sizeof it); getitimer(w, &it); tk += (size_t) snprintf(timers + tk, sizeof timers - tk, "%d:%d/%d;", w, it.it_value.tv_sec || it.it_value.tv_usec, it.it_interval.tv_sec || it.it_interval.tv_usec); }
+    char lims[400]; size_t lk = 0; lims[0] = 0; static const int RL[] = { RLIMIT_NOFILE, RLIMIT_STACK, RLIMIT_CORE, RLIMIT_FSIZE, RLIMIT_AS, RLIMIT_NPROC, RLIMIT_CPU };
+    for (size_t w = 0; w < sizeof RL / sizeof RL[0]; w++) { struct rlimit rl; getrlimit(RL[w], &rl); lk += (size_t) snprintf(lims + lk, sizeof lims - lk, "%llu/%llu;", (unsigned long long) rl.rlim_cur, (unsigned long long) rl.rlim_max); }
+    char comm[32] = ""; prctl(PR_GET_NAME, comm);
+    errno = 0; int prio = getpriority(PRIO_PROCESS, 0);
+    int nchild = 0; { char cp[64]; snprintf(cp, sizeof cp, "/proc/self/task/%ld/children", (long) syscall(SYS_gettid)); int f = open(cp, O_RDONLY); char cb[512]; ssize_t r = f >= 0 ? read(f, cb, sizeof cb - 1) : 0; if (f >= 0) close(f); if (r < 0) r = 0; cb[r] = 0; for (char *q = cb; *q; q++) if (*q == ' ') nchild++; if (jam_helper > 0 && nchild > 0) nchild--; }
+    const char *loc = setlocale(LC_ALL, NULL);
+    struct termios tio; int havet = tcgetattr(0, &tio) == 0; uint64_t th = 0;
+    if (havet) { tcflag_t fl[4] = { tio.c_iflag, tio.c_oflag, tio.c_cflag, tio.c_lflag & ~(tcflag_t) (FLUSHO | PENDIN) }; th = fnv(fl, sizeof fl, 9); th = fnv(tio.c_cc, NCCS, th); }
+    opf(",\"timers\":\"%s\",\"rlimits\":\"%s\",\"comm\":", timers, lims); ohex((unsigned char *) comm, strlen(comm));
+    opf(",\"nice\":%d,\"dumpable\":%d,\"children\":%d,\"locale\":\"%s\",\"termios0\":\"%llx\",\"nthreads\":%d}", prio, prctl(PR_GET_DUMPABLE), nchild, loc ? loc : "?", (unsigned long long) th, count_threads());
 }
 
 /* ---------------------------------------------------------------- the call under test */
